@@ -337,7 +337,12 @@ def _nest_twins(rng, seed, i):
 # length decodes to *something*); only the bitmap bits are placed, which needs nothing but the
 # Table B widths of the operator-free prefix. No ground truth: these serve differential oracles
 # (history vs fresh process, compiled vs interpreted), after admission by a lone decode.
-def gen_operator_spec(rng, version=None):
+def gen_operator_spec(rng, version=None, rv=None, force_n=None, perm=False):
+    """`rng` decides the PROGRAM (descriptor list); `rv` decides the DATA CONTENT (values, delayed
+    replication factors, arrangement of the bitmap bits): the same rng seed with another rv gives the
+    same descriptor list with other data. force_n fixes the delayed replication factor."""
+    seedv = rng.getrandbits(32)
+    rv = rv or random.Random(seedv)
     versions = [v for v in bufrgen.table_versions() if v >= 13]
     version = version or rng.choice(versions)
     b, _d = bufrgen.load_tables(version)
@@ -349,11 +354,12 @@ def gen_operator_spec(rng, version=None):
     bits = BitsOut()
 
     def rnd(n):
-        bits.add(rng.getrandbits(n) if n else 0, n)
+        bits.add(rv.getrandbits(n) if n else 0, n)
 
     kind = rng.choice(['bitmap', 'bitmap', 'bitmap', 'plain-ops', 'plain-ops', 'bitmap-blocks', 'bitmap-blocks'])
     if kind == 'bitmap-blocks':
-        return _gen_bitmap_blocks_spec(rng, version, b, nums, strs)
+        return _gen_bitmap_blocks_spec(rng, version, b, nums, strs, rv, force_n)
+    has_factor = False
     if kind == 'plain-ops':
         factor_prefix = b''
         for gi in range(rng.randint(1, 4)):
@@ -383,15 +389,16 @@ def gen_operator_spec(rng, version=None):
             # A delayed replication only as the very first thing, where its factor sits at bit 0.
             w = rng.random()
             if gi == 0 and w < 0.3 and r < 0.84:
-                n = rng.choice([0, 0, 1, 2, 3])
+                n = rv.choice([0, 0, 1, 2, 3]) if force_n is None else force_n
                 g = [100000 + len(g) * 1000, 31001] + g
                 factor_prefix = bytes([n])
+                has_factor = True
             elif w < 0.5 and r < 0.84:
                 g = [100000 + len(g) * 1000 + rng.randint(1, 3)] + g
             ids += g
             if rng.random() < 0.5:
                 ids.append(rng.choice(els))
-        data = factor_prefix + bytes(rng.randrange(256) for _ in range(64 + 24 * len(ids)))
+        data = factor_prefix + bytes(rv.randrange(256) for _ in range(64 + 24 * len(ids)))
     else:
         k = rng.randint(1, 5)
         prefix = [rng.choice(nums + strs[:8] if rng.random() < 0.5 else nums) for _ in range(k)]
@@ -410,6 +417,8 @@ def gen_operator_spec(rng, version=None):
         bitmap = [rng.choice([0, 0, 1]) for _ in range(nb)]
         if all(bitmap):
             bitmap[rng.randrange(nb)] = 0
+        if perm:
+            rv.shuffle(bitmap)      # another arrangement of the same number of set bits: same descriptor list
         for bit in bitmap:
             bits.add(bit, 1)
         z = bitmap.count(0)
@@ -424,8 +433,8 @@ def gen_operator_spec(rng, version=None):
             ids += [q] * z
         else:
             mod = rng.choice([None, None, 'w', 's', 'b', 'n'])
-            sel = [e for e, bit in zip(prefix[k - nb:], bitmap) if bit == 0]
-            if any(b[e][1] == bufrgen.STRING_UNIT for e in sel) and rng.random() < 0.5:
+            r_mod = rng.random()
+            if any(b[e][1] == bufrgen.STRING_UNIT for e in prefix[k - nb:]) and r_mod < 0.5:
                 mod = 'n'
             if mod == 'w':
                 ids.append(201000 + rng.choice([126, 130, 132]))
@@ -448,15 +457,16 @@ def gen_operator_spec(rng, version=None):
                 ids += [op + 255] * z
         if rng.random() < 0.5:
             ids.append(rng.choice(nums))
-        data = bits.to_bytes() + bytes(rng.randrange(256) for _ in range(64 + 48 * k))
+        data = bits.to_bytes() + bytes(rv.randrange(256) for _ in range(64 + 48 * k))
     ed = rng.choice([3, 4, 4])
     return {'edition': ed, 'version': version, 'local_version': 0, 'centre': rng.choice([0, 7, 98]),
             'subcentre': 0, 'category': rng.choice([0, 2, 6, 12]), 'subcategory': 0, 'local_subcategory': 0,
             'update': 0, 'date': [2021, 2, 3, 4, 5, 6], 'sec2': None, 'pads': {}, 'compressed': False,
-            'observed': True, 'raw_ids': ids, 'raw_data': data.hex(), 'nsub': 1, 'opkind': kind}
+            'observed': True, 'raw_ids': ids, 'raw_data': data.hex(), 'nsub': 1, 'opkind': kind,
+            'has_factor': has_factor, 'has_bitmap': kind == 'bitmap'}
 
 
-def _emit_block(rng, b, ids, bits, nums, strs, op):
+def _emit_block(rng, b, ids, bits, nums, strs, op, rv):
     """one self-contained bitmap block: k elements, operator, bitmap over the last nb of them, the
     bitmapped values, 235000. Every width is exact so that a second block / iteration stays aligned."""
     k = rng.randint(1, 4)
@@ -465,7 +475,7 @@ def _emit_block(rng, b, ids, bits, nums, strs, op):
         prefix[rng.randrange(k)] = rng.choice(strs)
     for e in prefix:
         ids.append(e)
-        bits.add(rng.getrandbits(b[e][4]), b[e][4])
+        bits.add(rv.getrandbits(b[e][4]), b[e][4])
     ids.append(op)
     nb = rng.randint(1, k)
     ids += [101000 + nb, 31031]
@@ -479,20 +489,20 @@ def _emit_block(rng, b, ids, bits, nums, strs, op):
         q = rng.choice([q for q in (33007, 33002, 33003) if q in b])
         for _ in sel:
             ids.append(q)
-            bits.add(rng.getrandbits(b[q][4]), b[q][4])
+            bits.add(rv.getrandbits(b[q][4]), b[q][4])
     else:
         sig = {224000: 8023, 225000: 8024}.get(op)
         if sig and sig in b:
             ids.append(sig)
-            bits.add(rng.getrandbits(b[sig][4]) & ((1 << b[sig][4]) - 2), b[sig][4])
+            bits.add(rv.getrandbits(b[sig][4]) & ((1 << b[sig][4]) - 2), b[sig][4])
         for e in sel:
             ids.append(op + 255)
             w = b[e][4] + (1 if op == 225000 else 0)
-            bits.add(rng.getrandbits(w), w)
+            bits.add(rv.getrandbits(w), w)
     ids.append(235000)
 
 
-def _gen_bitmap_blocks_spec(rng, version, b, nums, strs):
+def _gen_bitmap_blocks_spec(rng, version, b, nums, strs, rv, force_n=None):
     """bitmap blocks closed by 235000: two different blocks in a row, or one block inside a fixed /
     delayed replication executed 0..3 times"""
     ids = []
@@ -500,21 +510,22 @@ def _gen_bitmap_blocks_spec(rng, version, b, nums, strs):
     ops = [222000, 223000, 224000, 225000, 232000]
     shape = rng.choice(['two', 'two', 'fixed', 'delayed', 'delayed'])
     if shape == 'two':
-        _emit_block(rng, b, ids, bits, nums, strs, rng.choice(ops))
+        _emit_block(rng, b, ids, bits, nums, strs, rng.choice(ops), rv)
         for _ in range(rng.randint(0, 2)):
             e = rng.choice(nums)
             ids.append(e)
-            bits.add(rng.getrandbits(b[e][4]), b[e][4])
-        _emit_block(rng, b, ids, bits, nums, strs, rng.choice(ops))
+            bits.add(rv.getrandbits(b[e][4]), b[e][4])
+        _emit_block(rng, b, ids, bits, nums, strs, rng.choice(ops), rv)
     else:
         # the block's descriptor list is generated once; the data of every iteration is generated for
         # that very list (same bitmap pattern: the number of bitmapped values is fixed by the template)
         op = rng.choice(ops)
         state = rng.getstate()
         inner_ids = []
-        _emit_block(rng, b, inner_ids, BitsOut(), nums, strs, op)
+        _emit_block(rng, b, inner_ids, BitsOut(), nums, strs, op, random.Random(0))
         after = rng.getstate()
-        n = rng.randint(2, 3) if shape == 'fixed' else rng.choice([0, 1, 2, 2, 3])
+        n_fixed = rng.randint(2, 3)
+        n = n_fixed if shape == 'fixed' else (rv.choice([0, 1, 2, 2, 3]) if force_n is None else force_n)
         if shape == 'fixed':
             ids.append(100000 + len(inner_ids) * 1000 + n)
         else:
@@ -523,19 +534,20 @@ def _gen_bitmap_blocks_spec(rng, version, b, nums, strs):
         ids += inner_ids
         for _ in range(n):
             rng.setstate(state)
-            _emit_block(rng, b, [], bits, nums, strs, op)
+            _emit_block(rng, b, [], bits, nums, strs, op, rv)
         rng.setstate(after)
         rng.random()
     if rng.random() < 0.5:
         e = rng.choice(nums)
         ids.append(e)
-        bits.add(rng.getrandbits(b[e][4]), b[e][4])
-    data = bits.to_bytes() + bytes(rng.randrange(256) for _ in range(8))
+        bits.add(rv.getrandbits(b[e][4]), b[e][4])
+    data = bits.to_bytes() + bytes(rv.randrange(256) for _ in range(8))
     ed = rng.choice([3, 4, 4])
     return {'edition': ed, 'version': version, 'local_version': 0, 'centre': rng.choice([0, 7, 98]),
             'subcentre': 0, 'category': rng.choice([0, 2, 6, 12]), 'subcategory': 0, 'local_subcategory': 0,
             'update': 0, 'date': [2021, 2, 3, 4, 5, 6], 'sec2': None, 'pads': {}, 'compressed': False,
-            'observed': True, 'raw_ids': ids, 'raw_data': data.hex(), 'nsub': 1, 'opkind': 'bitmap-blocks-' + shape}
+            'observed': True, 'raw_ids': ids, 'raw_data': data.hex(), 'nsub': 1, 'opkind': 'bitmap-blocks-' + shape,
+            'has_factor': shape == 'delayed', 'has_bitmap': False}
 
 
 class BitsOut(object):
@@ -556,11 +568,30 @@ def operator_messages(seed, n):
     rng = random.Random(seed)
     out = []
     for i in range(n):
-        spec = gen_operator_spec(rng)
+        ps = rng.getrandbits(48)          # the program
+        spec = gen_operator_spec(random.Random(ps))
         msg, _truth = bufrgen.write_message(spec)
         if msg.find(b'BUFR', 1) >= 0:
             continue
-        out.append({'ref': 'synop:%d:%d' % (seed, i), 'hex': msg.hex(), 'src': 'operator', 'opkind': spec['opkind']})
+        ent = {'ref': 'synop:%d:%d' % (seed, i), 'hex': msg.hex(), 'src': 'operator', 'opkind': spec['opkind']}
+        out.append(ent)
+        # 'data twins': the SAME program with other data contents - every delayed replication factor in
+        # 0..3, other arrangements of the bitmap bits, other values - so that one cached compiled template
+        # is executed on different data in one history
+        if i % 2 == 0 and (spec['has_factor'] or spec['has_bitmap'] or i % 6 == 0):
+            variants = [{'force_n': k} for k in range(4)] if spec['has_factor'] else [{}, {}]
+            seen = set([msg])
+            for j, kw in enumerate(variants):
+                sp2 = gen_operator_spec(random.Random(ps), rv=random.Random(ps * 31 + j + 1),
+                                        perm=spec['has_bitmap'], **kw)
+                assert sp2['raw_ids'] == spec['raw_ids'], 'data variants must not change the program'
+                m2, _t = bufrgen.write_message(sp2)
+                if m2 in seen or m2.find(b'BUFR', 1) >= 0:
+                    continue
+                seen.add(m2)
+                ent['twin'] = 'd%d:%d' % (seed, i)
+                out.append({'ref': 'synop:%d:%d:d%d' % (seed, i, j), 'hex': m2.hex(), 'src': 'operator',
+                            'opkind': spec['opkind'] + '-data-twin', 'twin': ent['twin']})
     # 'marker twins': one descriptor list with a marker operator applied through a bitmap to an element
     # whose Table B definition differs between two master table versions
     tw = _collision_elements()
@@ -603,14 +634,19 @@ def operator_messages(seed, n):
     # compressed / multi-subset variants of the same programs: produced by the library's own
     # (interpreting) encoder from the decoded values, in a pristine child each; they carry no ground
     # truth and serve the differential oracles only (history vs fresh, compiled vs interpreted)
-    base = [e for k, e in enumerate(out) if k % 2 == 0 and not e.get('twin')]
+    base = [e for k, e in enumerate(out) if k % 2 == 0 and (not e.get('twin') or e['twin'].startswith('d'))
+            and not e['opkind'].endswith('-data-twin')]
     res = core.pmap('compress_variant', [{'hex': e['hex'], 'seed': seed + k} for k, e in enumerate(base)], limit=120)
     for e, (st, r) in zip(base, res):
         if st == 'ok' and r:
             raw = bytes.fromhex(r['hex'])
             if raw.find(b'BUFR', 1) < 0 and len(raw) <= MAX_MSG:
+                # same descriptor list, compressed: one twin group with its uncompressed origin, so that a
+                # compiled template cached for the one is executed on the other
+                if not e.get('twin'):
+                    e['twin'] = 'z' + e['ref']
                 out.append({'ref': e['ref'] + ':c%d' % r['nsub'], 'hex': r['hex'], 'src': 'operator',
-                            'opkind': e['opkind'] + '-compressed'})
+                            'opkind': e['opkind'] + '-compressed', 'twin': e['twin']})
     return out
 
 
